@@ -14,6 +14,7 @@
    for identity i whose session sid is still registered (for i) and unexpired in k's registry. *)
 From Coq Require Import List NArith ZArith Bool.
 From VGI Require Import Bytes Layout M_StickyTok L_StickyTok L_StickyTokServe L_StickyTokHist.
+From VGI Require L_Base64Url.
 Import ListNotations.
 Open Scope N_scope.
 
@@ -125,6 +126,29 @@ Theorem C25_registry_only_from_opens :
        reg_lookup (regs_of s' k) sid = Some (exp, principal_key i)).
 Proof. split; [exact registry_only_from_opens|exact minted_text_is_envelope]. Qed.
 Print Assumptions C25_registry_only_from_opens.
+
+(* ---- the armour loses nothing: for EVERY envelope (byte string of any length) the unpadded urlsafe text reads back --
+        through header.strip(), .encode("ascii"), the restored padding and the lenient decoder -- as exactly that
+        envelope; so the text an open_session mints satisfies the [decode_text hdr = Some raw] part of [genuine] with
+        raw = the envelope it armoured.  (proof/L_Base64Url.v; the premises are what os.urandom and the AEAD return:
+        bytes) ---- *)
+Theorem C25_armour_roundtrip :
+  (forall raw, bytes_ok raw = true -> decode_text (b64u_encode raw) = Some raw) /\
+  (forall aead_seal aead_open utf8_replace codec ws s o s' k i c sid exp n txt,
+     step aead_seal aead_open utf8_replace codec ws s o = (s', EvMinted k i c sid exp n (Some txt)) ->
+     bytes_ok n = true -> (forall key aad p, bytes_ok (aead_seal key aad n p) = true) ->
+     exists w sb, nth_error ws k = Some w /\ utf8_encode (w_id w) = Some sb /\
+       decode_text txt
+       = Some (seal_bytes aead_seal (session_plain c sb sid (tok_secs exp)) (w_key w) (compute_aad i) n)).
+Proof. exact L_Base64Url.armour_roundtrip. Qed.
+Print Assumptions C25_armour_roundtrip.
+(* the premise is met: envelopes with high bytes, all three tail lengths ('-' and '_' occur in the text) *)
+Example C25_ex_armour : bytes_ok (3 :: repeat 255 24 ++ [251]) = true /\
+                        decode_text (b64u_encode (3 :: repeat 255 24 ++ [251])) = Some (3 :: repeat 255 24 ++ [251]) /\
+                        decode_text (b64u_encode [251; 255]) = Some [251; 255] /\
+                        b64u_encode [251; 255] = [45; 95; 56] /\
+                        decode_text (b64u_encode [3; 251; 255]) = Some [3; 251; 255].
+Proof. vm_compute. repeat split; reflexivity. Qed.
 
 (* ---- the two server-id premises, characterised.  With .decode("ascii", errors="replace") a worker recognises its own
         tokens iff its server id is ASCII; with .decode("utf-8", errors="replace") always (given Python's codec round
